@@ -35,4 +35,20 @@ PROPS = {
         'assumptions': ['share names contain no "/" (wf_ops)'],
         'trusted': [],
     },
+    'C07': {
+        'suites': [('ret', 1500, 60000)],
+        'rule': 'ret: random histories (0-25 ops) of AddOrReplace/Remove/ClearAll over a pool of 2-8 topics built from levels {a,b,"",$s,ab} (prefix-related, $ topics), '
+                'then lookups: GetMatchedMessages for ~10 filters of every shape, GetRetainedMessage, Iterate; non-trivial = >=3 ops and a non-empty answer',
+        'assumptions': ['messages are compared field by field (all Message fields)'],
+        'trusted': [],
+    },
+    'C10': {
+        'suites': [('queue', 1500, 60000)],
+        'rule': 'queue: random interleavings (3-40 ops + drain epilogue) of Add/Read(ids)/ReadInflight(n)/Remove/Replace/Init(clean or not)/Close/clock-shift on mem.Queue '
+                'with capacities 1-6, QoS mix, expiry none/past/+1h/+3h, clock shifts of 2h, read limits 30/40/1000 bytes, in-flight expiry 0 or 30 min; '
+                'non-trivial = at least one Read returned something and (a drop at Add or a non-empty in-flight replay) occurred',
+        'assumptions': ['time passes only through the verif hook VerifShift (timestamps are hours apart, scheduling jitter is irrelevant)',
+                        'redis queue backend: not covered by this check yet'],
+        'trusted': ['persistence/queue/mem/verif_hooks.go (VerifShift, VerifReadWouldBlock, VerifDrained)'],
+    },
 }
